@@ -190,14 +190,15 @@ def linkCdsToParent (r : Rec) (g : Gene) : Rec :=
   linkAll g r3.subs r3
 
 /-- `Record.add_cds_feature` (translation checks aside): duplicate location or name is refused,
-    the feature is inserted at `bisect_left`, then linked to the collections containing it -/
+    the feature is inserted at `bisect_right` (after features with an equal key, so that re-adding
+    features in file order keeps that order), then linked to the collections containing it -/
 def addCds (r : Rec) (g : Gene) : E Rec :=
   if !keyExists g.loc then throw "value-error"
   else if r.genes.any (fun f => f.loc == g.loc) then throw "value-error"
   else if r.genes.any (fun f => f.id == g.id) then throw "value-error"
   else
-    let before := r.genes.takeWhile fun f => locLt f.loc g.loc
-    let after := r.genes.dropWhile fun f => locLt f.loc g.loc
+    let before := r.genes.takeWhile fun f => !locLt g.loc f.loc
+    let after := r.genes.dropWhile fun f => !locLt g.loc f.loc
     pure (linkCdsToParent { r with genes := before ++ g :: after } g)
 
 /-- `for cds in self.get_cds_features_within_location(area.location): area.add_cds(cds)` -/
